@@ -78,7 +78,8 @@ def pseudo_count_fact(root, info):
             pass
         d = ts.find_fn('pub trait FileSystem', op)
         # compared after the extractor's own rewrites (logging statements dropped, R2) so that a harmless statement does not change the verdict
-        if re.sub(r'\s+', '', X.rewrite_body(d['body'], [])).replace('else{}', '') != '{Err(io::Error::from_raw_os_error(libc::ENOSYS))}':
+        body_ = re.sub(r'//[^\n]*|/\*.*?\*/', '', X.rewrite_body(d['body'], []), flags=re.S)      # comments do not count either
+        if re.sub(r'\s+', '', body_).replace('else{}', '') != '{Err(io::Error::from_raw_os_error(libc::ENOSYS))}':
             return None, 'default body of FileSystem::%s is %r' % (op, X.norm_ws(d['body'])[:80])
     return '''
 // FACT (checked against src/api/pseudo_fs.rs and the trait defaults on this run, see asyncvfs.pseudo_count_fact): PseudoFs implements none of
